@@ -8,20 +8,20 @@ RULE = ("harness c14: CLEAR PATH (4 backends, N in {8,16,32}, ext in {1,2,4,8}, 
         "set;rotate(k) for EVERY k in [-2N ext, 2N ext) (both directions; N=8 all radices, N=16 and N=32/ext<=2 at the crate's radix, sampled "
         "otherwise in the quick tier, everything in the thorough tier) plus k beyond +-2N ext and i64::MIN/MAX; 14004 mod_switch_2n called "
         "directly: exhaustive first limb x second limb for 2N ext in {2..64}, radix 1..7, both directions, and boundary dictionaries at the "
-        "real sizes; BLIND PATH: 14010 blind rotation with an all-zero mask (exact, noise free, every limb of the GLWE compared, every index at "
+        "real sizes, every combination of ALL limbs for radix 1..3 and 2..4 limbs; BLIND PATH: 14010 blind rotation with an all-zero mask (exact, noise free, every limb of the GLWE compared, every index at "
         "N=8, standard / block / extended paths, BinaryBlock / BinaryFixed / BinaryProb / ZERO keys); 14020 real keys at the crate's test "
         "parameters (N=512, n_lwe=224, radix 19) and a second set (N=256, n_lwe=96, GLWE radix 17, LWE radix 14): EVERY message of "
         "Z_{2^(p+1)} (p = 1..3 quick, 1..5 thorough; the upper half exercises the negacyclic sign), block sizes 1, 4, 7, ext 1..8, both "
-        "directions, 1-3 keys, fresh encryptions, plus noise-free ciphertexts whose mod-switched mask takes boundary values; the decrypted "
+        "directions, 1-3 keys (thorough: 3 keys, p = 1..5 for every variant including ext 8), fresh encryptions, plus noise-free ciphertexts whose mod-switched mask takes boundary values, plus the x_pow_a sweep (N = 8, 16, block-binary and extended: every value a in [0, 2N ext) of the selected mask coefficients, i.e. every monomial prepared by the pub(crate) set_xai_plus_y); the decrypted "
         "accumulator is rounded to the table precision F = lut.size()*base2k bits (noise floor: 2^-(F+1)) and compared on all N coefficients "
         "with the model's accumulator phase; oracle = closed-form table rule / rounding rule (Model/C14Oracle.v).  The table limbs are read "
         "through the verif accessors (feature c14hook) or a layout mirror of LookupTable; 14010 reads them through the public API only.")
 ASSUMPTIONS = [
     "release-mode (wrapping) integer semantics",
-    "blind path: the external product is abstracted by its phase equation (Section hypothesis external_product_phase, owned by C04); "
+    "blind path: the external product is abstracted by its phase equation (hypothesis external_product_phase; C14_external_product_phase_from_C04 derives it from C04 given the GGSW-cell statement of the key and a bound on gadget_err); block / extended variants also assume the per-block update equation (block_update_phase / ext_block_update_phase: DFT-domain linearity + normalisation); "
     "the executable phase model drops the noise term, the comparison with the implementation is exact on the F most significant bits "
     "(noise below 2^-(F+1) at the parameter sets used: observed on every record of every run)",
-    "set_xai_plus_y is pub(crate): modelled and proved, exercised only through the block-binary blind rotations",
+    "set_xai_plus_y is pub(crate) (only use: x_pow_a[i] = X^i of a prepared BinaryBlock key): modelled and proved, every entry exercised through the block-binary / extended blind rotations of the x_pow_a sweep",
     "LookupTable limbs read through the cfg(poulpy_verif) accessors when the harness is built with the cargo feature c14hook, otherwise "
     "through a field-for-field mirror struct (guarded by size/align and every public getter; cross-validated by 14010)",
 ]
